@@ -203,12 +203,12 @@ def check_mp_reach(v):
 def check_mp_unreach(v):
     if len(v) < 3:
         return False
-    return check_mp_nlri(u16(v, 0), v[2], v[3:])
+    return check_mp_nlri(u16(v, 0), v[2], v[3:], True)
 
 
-def check_labeled(d, maxlen, fixed):
+def check_labeled(d, maxlen, fixed, withdraw=False):
     """<length, label stack + [RD] + prefix> (RFC 8277 / 4364): the length counts labels and RD too; the label stack
-    ends at the bottom-of-stack bit (a withdrawal may carry the single value 0x800000 or 0x000000 instead); what is left
+    ends at the bottom-of-stack bit (a withdrawal may carry the single value 0x800000 instead); what is left
     of the length is the prefix length, 0..maxlen, and the route occupies exactly ceil(length / 8) octets"""
     i, n = 0, len(d)
     rd = fixed - 24
@@ -222,7 +222,7 @@ def check_labeled(d, maxlen, fixed):
             if j + 3 > i + 1 + k:
                 return False
             labels += 1
-            last = d[j + 2] % 2 == 1 or (labels == 1 and d[j:j + 3] in (b'\x80\x00\x00', b'\x00\x00\x00'))
+            last = d[j + 2] % 2 == 1 or (withdraw and labels == 1 and d[j:j + 3] == b'\x80\x00\x00')
             j += 3
             if last:
                 break
@@ -337,15 +337,15 @@ def check_srte(d):
     return i == n
 
 
-def check_mp_nlri(afi, safi, d):
+def check_mp_nlri(afi, safi, d, withdraw=False):
     if (afi, safi) == (1, 1):
         return check_prefixes(d, 32)
     if (afi, safi) == (2, 1):
         return check_prefixes(d, 128)
     if safi == 4:
-        return check_labeled(d, 32 if afi == 1 else 128, 24)
+        return check_labeled(d, 32 if afi == 1 else 128, 24, withdraw)
     if safi == 128:
-        return check_labeled(d, 32 if afi == 1 else 128, 88)
+        return check_labeled(d, 32 if afi == 1 else 128, 88, withdraw)
     if (afi, safi) == (25, 70):
         return check_evpn(d)
     if safi == 133:
